@@ -10,6 +10,7 @@ from math import comb
 
 from specs import core as S
 from vlib import domains as D
+from props import containers  # noqa: F401  (registers its checks before the worker pool is forked)
 from vlib.core import bad, check, ok
 
 LEVEL = "proof"  # every function on the path is under a verified contract; downgraded by the evidence writer unless every obligation is discharged on the run
@@ -218,4 +219,5 @@ def run(ctx):
         "CPython tuple/list equality and itertools.combinations order (lexicographic)",
     ]
     from props import dlayer
+    containers.run_for(ctx, "C01")
     dlayer.run(ctx, "C01")
